@@ -89,8 +89,8 @@ package influxql
 // ---------------------------------------------------------------- C08 durations
 
 //@ func ParseDuration
-//@   props C08
-//@   safety C08
+//@   props C08 C04
+//@   safety C08 C04
 //@   tracks ovf
 //@   ensures result1 == nil ==> !ovf()
 //@   ensures [C08] @decimal callarg("strconv.ParseInt", 1) == 10 && callarg("strconv.ParseInt", 2) == 64
@@ -175,9 +175,9 @@ package influxql
 //@ func IdentNeedsQuotes
 //@   props C06 C02 C04
 //@   safety C04
-//@   ensures [C06] @keyword call("Lookup", ident) != IDENT ==> result
-//@   loop 1 step [C06] @firstchar (i == 0 && !spec_isIdentFirst(r)) ==> false
-//@   loop 1 step [C06] @laterchar (i > 0 && !spec_isIdentChar(r)) ==> false
+//@   ensures [C06, C02] @keyword call("Lookup", ident) != IDENT ==> result
+//@   loop 1 step [C06, C02] @firstchar (i == 0 && !spec_isIdentFirst(r)) ==> false
+//@   loop 1 step [C06, C02] @laterchar (i > 0 && !spec_isIdentChar(r)) ==> false
 
 // QuoteIdent is on every printing path: it may write only memory it allocated
 // itself (in particular no builder or buffer that outlives the call).
@@ -186,3 +186,15 @@ package influxql
 //@   safety C04
 //@   modifies fresh
 //@   frameprops C17 C14
+// Each segment is written as its escaped text (the qiReplacer table, proved inverse to the scanner by
+// the lemmas above), between double quotes or bare, followed by a full stop unless it is the last one.
+// Bare is allowed only if the segment does not need quotes and is not an empty first or last segment
+// (an empty middle segment is the `db..measurement` form).
+//@   let esc = libcall("(*strings.Replacer).Replace", qiReplacer, segment)
+//@   let quoted = scat(scat(scat(old(content(buf)), srune('"')), esc), srune('"'))
+//@   let bare = scat(old(content(buf)), esc)
+//@   let mayBeBare = !callres("IdentNeedsQuotes", 0) && !(segment == "" && (rangeindex == 0 || rangeindex == len(segments) - 1))
+//@   loop 1 invariant -1 <= rangeindex && rangeindex < len(segments)
+//@   loop 1 step [C06, C02] @segment rangeindex < len(segments) - 1 ==> (content(buf) == scat(quoted, srune('.')) || (mayBeBare && content(buf) == scat(bare, srune('.'))))
+//@   loop 1 step [C06, C02] @lastsegment rangeindex == len(segments) - 1 ==> (content(buf) == quoted || (mayBeBare && content(buf) == bare))
+//@   ensures [C06, C02] @whole result == content(local(buf))
